@@ -8,8 +8,8 @@
           [measure, then save: snapshot]; run_iteration [sweeps += N];   final measurement, final save.
    A record is (t, acc): the time / sweep counter and the accumulated truncation error that the
    measurement reads.  A snapshot contains what get_resume_data + results['measurements'] contain:
-   t, the records, and acc only if `c_restore` (the real TimeEvolutionAlgorithm.get_resume_data does
-   NOT contain trunc_err: c_restore = false is the faithful setting for time evolution).
+   t, the records, and acc only if `c_restore` (before /repo commit b662f88 TimeEvolutionAlgorithm.
+   get_resume_data did NOT contain trunc_err, i.e. c_restore = false; since that fix c_restore = true).
    resume = re-enter the loop head as a first iteration with the snapshot's data. *)
 From TenpyV Require Import Base.Prelude.
 
